@@ -22,7 +22,7 @@ type FileSpec struct {
 	// import spellings
 	CtxAlias string `json:"ctxalias,omitempty"` // alias for "context" ("" = plain)
 	CffAlias string `json:"cffalias,omitempty"` // alias for go.uber.org/cff
-	Layout   int    `json:"layout,omitempty"`   // bit 0: CRLF line endings, bit 1: no newline at the end of the file, bit 2: //go:generate and a doc comment between the constraint and the package clause, bit 3: no blank line between a //go:build line and the package clause, bit 4: //line directives around the package clause (the file comes from a preprocessor)
+	Layout   int    `json:"layout,omitempty"`   // bit 0: CRLF line endings, bit 1: no newline at the end of the file, bit 2: //go:generate and a doc comment between the constraint and the package clause, bit 3: no blank line between a //go:build line and the package clause, bit 4: //line directives around the package clause (the file comes from a preprocessor), bit 5: the file starts with a UTF-8 byte order mark
 	OddImp   int    `json:"oddimp,omitempty"`   // 1: imports vcase/odd/v2 (package odd), 2: math/rand/v2 (package rand), 3: vcase/twin/v3 (package debug), all without an explicit name
 	TimeImp  string `json:"timeimp,omitempty"`  // "", "plain" (imports time), "alias" (tm "time"), "collide" (another package imported as time)
 }
@@ -986,6 +986,9 @@ func RenderFileAs(f *FileSpec, pkgAuto bool, regSuffix string) (src, side string
 	}
 	if f.Layout&1 != 0 {
 		src = strings.ReplaceAll(src, "\n", "\r\n") // CRLF line endings
+	}
+	if f.Layout&32 != 0 {
+		src = "\ufeff" + src // UTF-8 byte order mark (legal at the very beginning of a Go file)
 	}
 	return src, side, extFns
 }
